@@ -134,6 +134,9 @@ def rword(rng):
 def rand_leaf(rng):
     f = rng.choice(["", "", "", "title", "body"])
     k = rng.random()
+    if k < 0.08:
+        # a word the title analyzer breaks at hyphens (always written with the field prefix)
+        return {"op": "multi", "f": "title", "parts": [rword(rng) for _ in range(rng.randrange(2, 4))]}
     if k < 0.45:
         return {"op": "word", "f": f, "t": rword(rng)}
     if k < 0.6:
@@ -197,6 +200,8 @@ def strip_fields(e):
         out = dict((k, strip_fields(v)) for k, v in e.items())
         if out.get("op") in ("word", "phrase", "prefix", "wild", "range") and "f" in out:
             out["f"] = ""
+        if out.get("op") == "multi":
+            out = {"op": "word", "f": "", "t": out["parts"][0]}
         return out
     if isinstance(e, list):
         return [strip_fields(x) for x in e]
